@@ -20,24 +20,50 @@ Import ListNotations.
    real code this clause is OBSERVED on every run by harness/c16.py: the recording stubs keep
    the raw argument objects and the oracle requires `type(args) is list` and
    `type(x) is str` for every element of every call (keys nonlist-arg:STYPE, nonstr-arg:STYPE).
-   Likewise c16_embedder_calls / c16_tokenizer_calls unfold the definition of arg_lists (the
-   Python loop `for i in range(0, len(ser_list), bs): ser_list[i:i+bs]` is modelled by its
-   specification Chunks.chunks); the tie to the code is the correspondence on recorded calls. *)
+   (The mini-batch loop itself is modelled as written and proved equal to Chunks.chunks below:
+   c16_batch_loop_is_chunks.) *)
 Theorem c16_missing_is_rendered :
   render CNone = "None"%string /\ render CNaN = "nan"%string /\ render CNA = "<NA>"%string.
 Proof. exact render_missing. Qed.
 
+(* the mini-batch loop of both mappers AS WRITTEN
+       for i in range(0, len(ser_list), batch_size): f(ser_list[i:i + batch_size])
+   (Model/Embedders.v batch_slices: Python range + list slicing) yields exactly the consecutive
+   chunks of at most batch_size *)
+Theorem c16_batch_loop_is_chunks : forall {A} k (l : list A), 0 < k ->
+  batch_slices k l = chunks k l.
+Proof. exact @batch_slices_chunks. Qed.
+
 (* the recorded calls are exactly: one call with the whole rendered column when no batch size
    is set, else its consecutive chunks of at most batch_size *)
-Theorem c16_embedder_calls : forall {V} (f : list string -> list V) bs cells,
+Theorem c16_embedder_calls : forall {V} (f : list string -> list V) bs cells, valid_bs bs ->
   emb_calls f bs cells =
   match bs with None => [map render cells] | Some k => chunks k (map render cells) end.
-Proof. intros. rewrite emb_calls_are_arg_lists. destruct bs; reflexivity. Qed.
+Proof.
+  intros V f bs cells Hv. rewrite emb_calls_are_arg_lists.
+  destruct bs; [apply arg_lists_chunks; exact Hv | reflexivity].
+Qed.
 
-Theorem c16_tokenizer_calls : forall {K T} (f : list string -> tok_out K T) bs cells,
+Theorem c16_tokenizer_calls : forall {K T} (f : list string -> tok_out K T) bs cells, valid_bs bs ->
   tok_calls f bs cells =
   match bs with None => [map render cells] | Some k => chunks k (map render cells) end.
-Proof. intros. rewrite tok_calls_are_arg_lists. destruct bs; reflexivity. Qed.
+Proof.
+  intros K T f bs cells Hv. rewrite tok_calls_are_arg_lists.
+  destruct bs; [apply arg_lists_chunks; exact Hv | reflexivity].
+Qed.
+
+(* The two statements above used to be stated without `valid_bs` and were proved by unfolding,
+   because arg_lists was DEFINED as chunks.  Of the faithful model (the loop as written) the
+   unguarded statement is false at batch_size = 0: the loop makes no call at all (Python raises
+   ValueError from range() before any call), whereas `chunks 0` would be a list of empty chunks. *)
+Theorem c16_calls_unguarded_refuted :
+  exists (f : list string -> list nat) (cells : list cell),
+    emb_calls f (Some 0) cells <> chunks 0 (map render cells) /\
+    emb_calls f (Some 0) cells = [] /\ emb_forward f (Some 0) cells = None.
+Proof.
+  exists (fun xs => map String.length xs), [CStr "a"%string; CNone].
+  split; [vm_compute; discriminate | split; reflexivity].
+Qed.
 
 (* every row exactly once, in row order *)
 Theorem c16_calls_cover_rows_in_order : forall bs cells, valid_bs bs ->
@@ -130,6 +156,8 @@ Theorem c16_wiring_broadcast : forall {F} (cols : list string) (x : @cfg F) col,
 Proof. exact @cfg_broadcast_lookup. Qed.
 
 Print Assumptions c16_missing_is_rendered.
+Print Assumptions c16_batch_loop_is_chunks.
+Print Assumptions c16_calls_unguarded_refuted.
 Print Assumptions c16_embedder_calls.
 Print Assumptions c16_tokenizer_calls.
 Print Assumptions c16_calls_cover_rows_in_order.
